@@ -1,5 +1,6 @@
 import HeimdallModel.Lemmas.Factory
 import HeimdallModel.Lemmas.FactoryOverride
+import HeimdallModel.Model.FactoryCel
 /-!
 # C14 — effective pipelines follow stage-wise inheritance; malformed rules are rejected
 
@@ -36,7 +37,7 @@ def dflt₀ : DefaultRule :=
     onError := [{ errorHandler := some "e1" }] }
 
 /-- a rule that names nothing but one *conditional* contextualizer -/
-def rule₀ : RuleDef := { execute := [{ contextualizer := some "c1", cond := .expr }] }
+def rule₀ : RuleDef := { execute := [{ contextualizer := some "c1", cond := .expr "c" (some .bool) }] }
 
 /-- **The loader implements the specification.**  A configuration and a rule are accepted exactly when the default
 rule (if any) and the rule are well-formed, and then the factory state and the effective rule are the ones the
@@ -114,7 +115,7 @@ theorem c14_conditional_step_defines_stage {cat : Catalogue} {proxy validated : 
   simp [inherit, hne]
 
 example : rule₀.execute.head?.bind Step.stage = some .handling ∧
-    (rule₀.execute.all fun s => s.cond == .expr) = true := by decide
+    (rule₀.execute.all fun s => s.cond == .expr "c" (some .bool)) = true := by decide
 
 /-- **Backtracking inheritance.**  The effective setting is the rule's own if given, otherwise the default
 rule's, otherwise off — whether or not a default rule is configured. -/
@@ -161,7 +162,7 @@ example : ConfigWellFormed cat₀ (some dflt₀) := (configOk_iff cat₀ (some d
 
 /-- **The malformed rules of the property are rejected.**  Each of the five defects the property lists makes the
 loader refuse the rule (the configuration being loadable): wrong order, no authenticator in the end, unknown
-mechanism, bad override, proxy mode without `forward_to`. -/
+mechanism, bad override, proxy mode without `forward_to` — and so does an `if` that is not a boolean expression. -/
 theorem c14_malformed_rejected (cat : Catalogue) (proxy validated : Bool) (d : Option DefaultRule) (r : RuleDef)
     (hc : ConfigWellFormed cat d)
     (h : ¬ Ordered r.execute ∨
@@ -169,17 +170,19 @@ theorem c14_malformed_rejected (cat : Catalogue) (proxy validated : Bool) (d : O
       (∃ s ∈ r.execute, s.known cat = false) ∨
       (∃ s ∈ r.execute, s.overrideOk cat = false) ∨
       (∃ s ∈ r.onError, s.ehOk cat = false) ∨
-      (proxy = true ∧ r.forwardTo = false)) :
+      (proxy = true ∧ r.forwardTo = false) ∨
+      (∃ s ∈ r.execute, s.condOk = false)) :
     ∃ why, load cat proxy validated d r = .ruleRejected why := by
   rw [c14_rejected_iff cat proxy validated d r hc]
   intro hw
-  rcases h with h | h | ⟨s, hs, h⟩ | ⟨s, hs, h⟩ | ⟨s, hs, h⟩ | ⟨hp, h⟩
+  rcases h with h | h | ⟨s, hs, h⟩ | ⟨s, hs, h⟩ | ⟨s, hs, h⟩ | ⟨hp, h⟩ | ⟨s, hs, h⟩
   · exact h hw.ordered
   · exact hw.authenticator h
   · simp [hw.known s hs] at h
   · simp [hw.overrides s hs] at h
   · simp [hw.handlers s hs] at h
   · simp [hw.forward hp] at h
+  · simp [hw.conds s hs] at h
 
 /-- one witness per defect, all of them rejected by the model: finalizer before authorizer; authenticator after an
 authorizer; no authenticator and no default rule; unknown mechanism; refused override (tag 1 on `f1`); unknown
@@ -399,7 +402,7 @@ calls on one mechanism factory, the answer to a call is `WithConfig` of the cata
 theorem c14_variant_is_overlay_of_own_override (T : Typed) (pre post : List Request) (k : Kind) (id : String)
     (v : Val) :
     (T.createAll (pre ++ (k, id, some v) :: post))[pre.length]? =
-      some ((T.mech k id).bind fun m => overlay m.type m.proto v) := by
+      some ((T.mech k id).bind fun m => overlay T.cel m.type m.proto v) := by
   unfold Typed.createAll
   rw [List.map_append, List.map_cons, List.getElem?_append_right (by simp)]
   simp only [List.length_map, Nat.sub_self, List.getElem?_cons_zero, Typed.create]
@@ -498,5 +501,302 @@ example :
     typed₀.variant .fin "f1" (some 103) = some { headers := [(t!"X-A", t!"1"), (t!"X-B", t!"2")] } ∧
     ConfigWellFormed typed₀.catalogue none := by
   refine ⟨by decide, by decide, by decide, by decide, by decide, trivial⟩
+
+/-! ## Unknown references, conditions and expressions
+
+The catalogue is the only source of mechanisms: a reference is usable iff the catalogue defines that id **for that
+kind** — whatever the id looks like (the name of a mechanism type such as `allow`, `noop`, `default`, `anonymous`; an
+id another kind defines; a catalogue id in another case or with white space around it).  An `if` is usable iff it is
+absent or an expression whose **static result type is `bool`**: expressions of type `int`, `string`, list, map — and
+`dyn`, i.e. every attribute / index chain ending in `Subject.…`, `Payload.…`, `Outputs.…`, `Request.…` — are refused
+like expressions that do not compile.  The same holds for the `expressions` a rule puts over a cel / remote authorizer. -/
+
+/-- **A reference the catalogue does not define for its kind makes the rule malformed** — on `execute` steps of every
+kind and on error handlers. -/
+theorem c14_unknown_reference_rejected (cat : Catalogue) (proxy validated : Bool) (d : Option DefaultRule)
+    (r : RuleDef) (hc : ConfigWellFormed cat d)
+    (h : (∃ s ∈ r.execute, ∃ k id, s.target = some (k, id) ∧ cat k id = none) ∨
+      (∃ s ∈ r.onError, ∃ id, s.errorHandler = some id ∧ cat .eh id = none)) :
+    ∃ why, load cat proxy validated d r = .ruleRejected why := by
+  apply c14_malformed_rejected cat proxy validated d r hc
+  rcases h with ⟨s, hs, k, id, ht, hn⟩ | ⟨s, hs, id, hi, hn⟩
+  · refine Or.inr (Or.inr (Or.inl ⟨s, hs, ?_⟩))
+    simp [Step.known, ht, hn]
+  · refine Or.inr (Or.inr (Or.inr (Or.inr (Or.inl ⟨s, hs, ?_⟩))))
+    simp [Step.ehOk, hi, hn]
+
+/-- **An accepted rule references defined mechanisms only**: every step of `execute` names an id the catalogue
+defines for the kind of its key, every step of `on_error` an error handler of the catalogue.  Nothing is created on
+the fly. -/
+theorem c14_accepted_references_defined {cat : Catalogue} {proxy validated : Bool} {d : Option DefaultRule}
+    {r : RuleDef} {f : Factory} {e : Effective} (h : load cat proxy validated d r = .accepted f e) :
+    (∀ s ∈ r.execute, ∃ k id, s.target = some (k, id) ∧ (cat k id).isSome = true) ∧
+    (∀ s ∈ r.onError, ∃ id, s.errorHandler = some id ∧ (cat .eh id).isSome = true) := by
+  obtain ⟨_, hw, _, _⟩ := (c14_accepted_iff cat proxy validated d r f e).mp h
+  constructor
+  · intro s hs
+    have hk := hw.known s hs
+    unfold Step.known at hk
+    cases ht : s.target with
+    | none => simp [ht] at hk
+    | some t => obtain ⟨k, id⟩ := t; simp only [ht] at hk; exact ⟨k, id, rfl, hk⟩
+  · intro s hs
+    have hk := hw.handlers s hs
+    unfold Step.ehOk at hk
+    cases hi : s.errorHandler with
+    | none => simp [hi] at hk
+    | some id =>
+      refine ⟨id, rfl, ?_⟩
+      cases hc : cat .eh id with
+      | none => simp [hi, hc] at hk
+      | some _ => rfl
+
+/-- ids named like mechanism types, an authorizer id used as finalizer, a catalogue id in capitals / with a trailing
+blank: all unknown to `cat₀` for that kind, all rejected (also under the complete default rule, whose stage the step
+would otherwise replace); the same ids where the catalogue defines them are accepted -/
+example :
+    load cat₀ false true (some dflt₀) { execute := [{ authorizer := some "allow" }] } = .ruleRejected .unknownMechanism ∧
+    load cat₀ false true (some dflt₀) { execute := [{ finalizer := some "noop" }] } = .ruleRejected .unknownMechanism ∧
+    load cat₀ false true (some dflt₀) { execute := [{ authenticator := some "anonymous" }] }
+      = .ruleRejected .unknownMechanism ∧
+    load cat₀ false true (some dflt₀)
+      { execute := [{ authenticator := some "g1" }], onError := [{ errorHandler := some "default" }] }
+      = .ruleRejected .unknownMechanism ∧
+    load cat₀ false true none { execute := [{ authenticator := some "g1" }, { finalizer := some "z1" }] }
+      = .ruleRejected .unknownMechanism ∧
+    load cat₀ false true none { execute := [{ authenticator := some "g1" }, { authorizer := some "Z1" }] }
+      = .ruleRejected .unknownMechanism ∧
+    load cat₀ false true none { execute := [{ authenticator := some "g1" }, { authorizer := some "z1 " }] }
+      = .ruleRejected .unknownMechanism ∧
+    load cat₀ false true none { execute := [{ authenticator := some "g1" }, { authorizer := some "z1" }] }
+      = .accepted (Spec.factory false none)
+          { authn := [⟨.authn, "g1", false, none⟩], sh := [⟨.authz, "z1", false, none⟩] } := by
+  refine ⟨by decide, by decide, by decide, by decide, by decide, by decide, by decide, by decide⟩
+
+/-- **A condition is usable exactly when it is absent or boolean**: `getExecutionCondition` succeeds iff the `if` is
+absent or an expression that compiles with the static result type `bool`. -/
+theorem c14_condition_usable_iff_bool (c : Cond) :
+    (∃ b, condition c = .ok b) ↔ c = .absent ∨ ∃ src, c = .expr src (some .bool) := by
+  cases c with
+  | expr src t =>
+    cases t with
+    | none => simp [condition]
+    | some t => cases t <;> simp [condition, compiles]
+  | _ => simp [condition]
+
+/-- **A step guarded by a non-boolean expression makes the rule malformed**: if a step of `execute` that is not an
+authenticator, or a step of `on_error`, carries an `if` that does not compile or whose static type is not `bool`
+(`dyn` included), the rule is rejected when its rule set is loaded. -/
+theorem c14_nonboolean_condition_rejected (cat : Catalogue) (proxy validated : Bool) (d : Option DefaultRule)
+    (r : RuleDef) (hc : ConfigWellFormed cat d)
+    (h : (∃ s ∈ r.execute, s.authenticator = none ∧ ∃ src t, s.cond = .expr src t ∧ t ≠ some .bool) ∨
+      (∃ s ∈ r.onError, ∃ src t, s.cond = .expr src t ∧ t ≠ some .bool)) :
+    ∃ why, load cat proxy validated d r = .ruleRejected why := by
+  apply c14_malformed_rejected cat proxy validated d r hc
+  rcases h with ⟨s, hs, ha, src, t, hcnd, hne⟩ | ⟨s, hs, src, t, hcnd, hne⟩
+  · refine Or.inr (Or.inr (Or.inr (Or.inr (Or.inr (Or.inr ⟨s, hs, ?_⟩)))))
+    simp [Step.condOk, ha, hcnd, Cond.usable, hne]
+  · refine Or.inr (Or.inr (Or.inr (Or.inr (Or.inl ⟨s, hs, ?_⟩))))
+    unfold Step.ehOk
+    cases s.errorHandler with
+    | none => rfl
+    | some id => simp [hcnd, Cond.usable, hne]
+
+/-- **The static type decides.**  A step whose `if` is the expression `e` is usable iff the type checker gives `e`
+the type `bool` (`Model/FactoryCel.lean`). -/
+theorem c14_expression_usable_iff_static_bool (e : Cel) (src : String) :
+    (e.cond src).usable = true ↔ e.check = some .bool := by
+  simp [Cel.cond, Cond.usable]
+
+/-- **Attribute chains of the dynamically typed variables are `dyn`.**  `Subject`, `Payload`, `Request` followed by
+any number of field selections (`Subject.Attributes.external`, `Payload.x.y`, `Request.URL.Path`) have the static type
+`dyn` — never `bool`. -/
+theorem c14_attribute_chain_is_dyn (root : String) (hroot : declared root = some .dyn) (fields : List String) :
+    (fields.foldl Cel.sel (.var root)).check = some .dyn := by
+  suffices h : ∀ (e : Cel), e.check = some .dyn → (fields.foldl Cel.sel e).check = some .dyn from
+    h (.var root) (by simpa [Cel.check] using hroot)
+  induction fields with
+  | nil => intro e he; simpa using he
+  | cons f fs ih => intro e he; exact ih (.sel e f) (by simp [Cel.check, he])
+
+/-- … and so are the values of `Outputs` and everything selected from them (`Outputs.y`, `Outputs.y.z`) -/
+theorem c14_outputs_chain_is_dyn (key : String) (fields : List String) :
+    (fields.foldl Cel.sel (.sel (.var "Outputs") key)).check = some .dyn := by
+  suffices h : ∀ (e : Cel), e.check = some .dyn → (fields.foldl Cel.sel e).check = some .dyn from
+    h _ (by simp [Cel.check, declared])
+  induction fields with
+  | nil => intro e he; simpa using he
+  | cons f fs ih => intro e he; exact ih (.sel e f) (by simp [Cel.check, he])
+
+/-- **A rule guarded by an attribute of a dynamically typed variable is rejected**, on every kind of step that reads
+its `if`: whatever follows `Subject.` / `Payload.` / `Request.`, the condition is not boolean. -/
+theorem c14_dyn_condition_rejected (cat : Catalogue) (proxy validated : Bool) (d : Option DefaultRule) (r : RuleDef)
+    (hc : ConfigWellFormed cat d) (root : String) (hroot : declared root = some .dyn) (fields : List String)
+    (src : String)
+    (h : (∃ s ∈ r.execute, s.authenticator = none ∧ s.cond = (fields.foldl Cel.sel (.var root)).cond src) ∨
+      (∃ s ∈ r.onError, s.cond = (fields.foldl Cel.sel (.var root)).cond src)) :
+    ∃ why, load cat proxy validated d r = .ruleRejected why := by
+  have hdyn : (fields.foldl Cel.sel (.var root)).cond src = .expr src (some .dyn) := by
+    unfold Cel.cond; rw [c14_attribute_chain_is_dyn root hroot fields]
+  apply c14_nonboolean_condition_rejected cat proxy validated d r hc
+  rcases h with ⟨s, hs, ha, hcnd⟩ | ⟨s, hs, hcnd⟩
+  · exact Or.inl ⟨s, hs, ha, src, some .dyn, hcnd.trans hdyn, by decide⟩
+  · exact Or.inr ⟨s, hs, src, some .dyn, hcnd.trans hdyn, by decide⟩
+
+/-- `Subject.Attributes.external`, `Subject.Attributes.groups[0]`, `Payload.x`, `Outputs.y` -/
+def subjectExternal : Cel := .sel (.sel (.var "Subject") "Attributes") "external"
+def subjectGroup0 : Cel := .idx (.sel (.sel (.var "Subject") "Attributes") "groups") (.int 0)
+def payloadX : Cel := .sel (.var "Payload") "x"
+def outputsY : Cel := .sel (.var "Outputs") "y"
+/-- `Subject.Attributes.x == true`, `Subject.Attributes.a && Subject.Attributes.b`: boolean over `dyn` sub-terms -/
+def attrIsTrue : Cel := .eq (.sel (.sel (.var "Subject") "Attributes") "x") (.bool true)
+def attrsBoth : Cel :=
+  .and (.sel (.sel (.var "Subject") "Attributes") "a") (.sel (.sel (.var "Subject") "Attributes") "b")
+
+/-- the static types of the witnesses: four `dyn`-typed expressions, two boolean ones over `dyn` sub-terms, the
+query parameters (`map(string, list(string))`), a literal, an undeclared variable, an operator without overload,
+text the parser refuses -/
+example : subjectExternal.check = some .dyn ∧ subjectGroup0.check = some .dyn ∧ payloadX.check = some .dyn ∧
+    outputsY.check = some .dyn ∧ attrIsTrue.check = some .bool ∧ attrsBoth.check = some .bool ∧
+    (Cel.call0 (.sel (.var "Request") "URL") "Query").check = some (.map (.list .str)) ∧
+    (Cel.int 1).check = some .int ∧ (Cel.var "subject").check = none ∧
+    (Cel.eq (.int 1) (.str "a")).check = none ∧ Cel.garbage.check = none ∧
+    subjectExternal = ["Attributes", "external"].foldl Cel.sel (.var "Subject") := by decide
+
+/-- **a `dyn`-typed condition is rejected** — on an authorizer, a contextualizer, a finalizer and an error handler,
+with and without default rule — while the boolean conditions over `dyn` sub-terms are accepted and a `dyn`-typed `if`
+on an authenticator step is never read; statically non-boolean conditions and conditions that do not compile are
+rejected alike -/
+example :
+    load cat₀ false true none
+      { execute := [{ authenticator := some "g1" }, { authorizer := some "z1", cond := subjectExternal.cond }] }
+      = .ruleRejected .badCondition ∧
+    load cat₀ false true (some dflt₀) { execute := [{ contextualizer := some "c1", cond := subjectGroup0.cond }] }
+      = .ruleRejected .badCondition ∧
+    load cat₀ false true (some dflt₀) { execute := [{ finalizer := some "f1", cond := payloadX.cond }] }
+      = .ruleRejected .badCondition ∧
+    load cat₀ false true none
+      { execute := [{ authenticator := some "g1" }], onError := [{ errorHandler := some "e1", cond := outputsY.cond }] }
+      = .ruleRejected .badCondition ∧
+    load cat₀ false true none
+      { execute := [{ authenticator := some "g1" }, { authorizer := some "z1", cond := (Cel.int 1).cond }] }
+      = .ruleRejected .badCondition ∧
+    load cat₀ false true none
+      { execute := [{ authenticator := some "g1" }, { authorizer := some "z1", cond := Cel.garbage.cond }] }
+      = .ruleRejected .badCondition ∧
+    load cat₀ false true none
+      { execute := [{ authenticator := some "g1" }, { authorizer := some "z1", cond := attrIsTrue.cond },
+                    { finalizer := some "f1", cond := attrsBoth.cond }] }
+      = .accepted (Spec.factory false none)
+          { authn := [⟨.authn, "g1", false, none⟩], sh := [⟨.authz, "z1", true, none⟩], fin := [⟨.fin, "f1", true, none⟩] } ∧
+    load cat₀ false true none { execute := [{ authenticator := some "g1", cond := subjectExternal.cond }] }
+      = .accepted (Spec.factory false none) { authn := [⟨.authn, "g1", false, none⟩] } := by
+  refine ⟨by decide, by decide, by decide, by decide, by decide, by decide, by decide, by decide⟩
+
+/-- the text of an `if` is part of the step: a default rule with two steps that differ in that text only has no
+repeated entry (`uniqueItems`), with the same text it has -/
+example :
+    (match newFactory cat₀ false (some { execute := [{ authenticator := some "g1" },
+        { finalizer := some "f1", cond := .expr "a" (some .bool) },
+        { finalizer := some "f1", cond := .expr "b" (some .bool) }] }) with
+      | .ok f => (f.dflt.map (·.fin.length)) == some 2
+      | .error _ => false) = true ∧
+    newFactory cat₀ false (some { execute := [{ authenticator := some "g1" },
+        { finalizer := some "f1", cond := .expr "a" (some .bool) },
+        { finalizer := some "f1", cond := .expr "a" (some .bool) }] }) = .error .duplicateSteps := by
+  refine ⟨by decide, by decide⟩
+
+/-- the hypotheses of `c14_dyn_condition_rejected` / `c14_nonboolean_condition_rejected` hold for the first witness -/
+example : declared "Subject" = some .dyn ∧ ConfigWellFormed cat₀ none ∧
+    (({ authorizer := some "z1", cond := subjectExternal.cond } : Step).authenticator = none) ∧
+    subjectExternal.cond = .expr "" (some .dyn) ∧ some CelTy.dyn ≠ some CelTy.bool := by
+  refine ⟨by decide, trivial, rfl, by decide, by decide⟩
+
+/-- **An `expressions` override is accepted iff every expression is boolean** (cel authorizer): a rule-level
+`config: {expressions: [{expression: src}]}` is accepted by `WithConfig` iff the static type of `src` is `bool`. -/
+theorem c14_cel_expression_override_accepted_iff (Γ : CelEnv) (p : Shown) (src : Text) (hne : src ≠ []) :
+    (overlay Γ .cel p (.obj (.cons t!"expressions"
+      (.list (.cons (.obj (.cons t!"expression" (.str src) .nil)) .nil)) .nil))).isSome = true ↔ Γ src = some .bool := by
+  have hk1 : ∀ v, knownKeys (.cons t!"expressions" v .nil) [t!"expressions"] = true := fun v => by
+    simp [knownKeys, Flds.keys]
+  have hk2 : ∀ v, knownKeys (.cons t!"expression" v .nil) [t!"expression", t!"message"] = true := fun v => by
+    simp [knownKeys, Flds.keys]
+  have hg : ∀ v, Flds.get (.cons t!"expression" v .nil) t!"message" = none := fun v => by
+    simp [Flds.get]
+  have hg2 : ∀ v, Flds.get (.cons t!"expression" v .nil) t!"expression" = some v := fun v => by
+    simp [Flds.get]
+  have hg3 : ∀ v, Flds.get (.cons t!"expressions" v .nil) t!"expressions" = some v := fun v => by
+    simp [Flds.get]
+  have hemp : src.isEmpty = false := by cases src <;> simp_all
+  simp only [overlay, Flds.isEmpty, hk1, hg3, decExpressions, Vals.expressions, hk2, hg, hg2, decText, hemp]
+  cases hΓ : Γ src with
+  | none => simp
+  | some t => cases t <;> simp [compiles]
+
+/-- … and the same for the remote authorizer -/
+theorem c14_remote_expression_override_accepted_iff (Γ : CelEnv) (p : Shown) (src : Text) (hne : src ≠ []) :
+    (overlay Γ .remote p (.obj (.cons t!"expressions"
+      (.list (.cons (.obj (.cons t!"expression" (.str src) .nil)) .nil)) .nil))).isSome = true ↔ Γ src = some .bool := by
+  have hk1 : ∀ v, knownKeys (.cons t!"expressions" v .nil) [t!"cache_ttl", t!"values", t!"expressions"] = true :=
+    fun v => by simp [knownKeys, Flds.keys]
+  have hk2 : ∀ v, knownKeys (.cons t!"expression" v .nil) [t!"expression", t!"message"] = true := fun v => by
+    simp [knownKeys, Flds.keys]
+  have hg : ∀ v, Flds.get (.cons t!"expression" v .nil) t!"message" = none := fun v => by
+    simp [Flds.get]
+  have hg2 : ∀ v, Flds.get (.cons t!"expression" v .nil) t!"expression" = some v := fun v => by
+    simp [Flds.get]
+  have hg3 : ∀ v, Flds.get (.cons t!"expressions" v .nil) t!"expressions" = some v := fun v => by
+    simp [Flds.get]
+  have hg4 : ∀ v, Flds.get (.cons t!"expressions" v .nil) t!"cache_ttl" = none := fun v => by
+    simp [Flds.get]
+  have hg5 : ∀ v, Flds.get (.cons t!"expressions" v .nil) t!"values" = none := fun v => by
+    simp [Flds.get]
+  have hemp : src.isEmpty = false := by cases src <;> simp_all
+  simp only [overlay, Flds.isEmpty, hk1, hg3, hg4, hg5, decDuration, decTemplates, decExpressions, Vals.expressions,
+    hk2, hg, hg2, decText, hemp]
+  cases hΓ : Γ src with
+  | none => simp
+  | some t => cases t <;> simp [compiles]
+
+/-- a cel authorizer `x1` and a remote authorizer `z1`; the override values: `expressions` holding
+`Subject.Attributes.admin` (100), `Subject.Attributes.x == true` (101), `Payload.x` (102); the expression table is
+filled by the type checker -/
+def typed₁ : Typed :=
+  { mech := fun k id =>
+      match k, id with
+      | .authn, "anon" => some { type := .anonymous, proto := { subject := t!"anon" } }
+      | .authz, "x1" => some { type := .cel, proto := { expressions := [t!"true"] } }
+      | .authz, "z1" => some { type := .remote, proto := {} }
+      | _, _ => none
+    ovr := fun n =>
+      let one (src : Text) : Val :=
+        .obj (.cons t!"expressions" (.list (.cons (.obj (.cons t!"expression" (.str src) .nil)) .nil)) .nil)
+      match n with
+      | 100 => some (one t!"Subject.Attributes.admin")
+      | 101 => some (one t!"Subject.Attributes.x == true")
+      | 102 => some (one t!"Payload.x")
+      | _ => none
+    tags := [100, 101, 102]
+    cel := fun src =>
+      if src = t!"Subject.Attributes.admin" then (Cel.sel (.sel (.var "Subject") "Attributes") "admin").check
+      else if src = t!"Subject.Attributes.x == true" then attrIsTrue.check
+      else if src = t!"Payload.x" then payloadX.check
+      else none }
+
+/-- the `dyn`-typed expression is refused by both authorizers, the boolean one over a `dyn` sub-term is accepted and
+shown by the variant; in a history the rule with the bad override is rejected after (and before) the rule with the
+good one -/
+example :
+    typed₁.variant .authz "x1" (some 100) = none ∧ typed₁.variant .authz "z1" (some 102) = none ∧
+    typed₁.variant .authz "x1" (some 101) = some { expressions := [t!"Subject.Attributes.x == true"] } ∧
+    typed₁.variant .authz "z1" (some 101) = some { expressions := [t!"Subject.Attributes.x == true"] } ∧
+    loadHistory typed₁.catalogue false true none
+      [{ execute := [{ authenticator := some "anon" }, { authorizer := some "x1", config := some 101 }] },
+       { execute := [{ authenticator := some "anon" }, { authorizer := some "x1", config := some 100 }] },
+       { execute := [{ authenticator := some "anon" }, { authorizer := some "z1", config := some 102 }] }] =
+      .loaded (Spec.factory false none)
+        [.ok { authn := [⟨.authn, "anon", false, none⟩], sh := [⟨.authz, "x1", false, some 101⟩] },
+         .error .badOverride, .error .badOverride] := by
+  refine ⟨by decide, by decide, by decide, by decide, by decide⟩
 
 end Heimdall.Props.C14
